@@ -35,6 +35,7 @@ func reqobjSpace(thorough bool) engine.Space {
 		engine.D("ocid", "outer", "peer", "absent"),
 		engine.D("oaud", auds...),
 		engine.D("ort", "same", "different", "absent"),
+		engine.D("outerRT", "code"), // the multi-valued outer response types: part reqobj-rt
 		engine.D("signer", "outer.k", "outer.rsa", "peer.k-own-kid", "peer.k-outer-kid", "op-key", "none", "hs-pub", "bad"),
 		engine.D("members", mem...),
 		engine.D("plainScope", "openid email", "email"),
@@ -135,6 +136,78 @@ func init() {
 	signers["B.k/ES256-bad"] = signerT{key: "p256c", alg: "ES256", mode: "corrupt"}
 }
 
+// objectRT: the response_type member of the object for an outer response type and a relation
+// name, and how the statement ("agrees with the outer ... response_type") classifies it:
+// "equal"; "disagrees" (a strict subset, a strict superset, disjoint values: the object must
+// not take effect); "reordered" (the same values in another order: Either); "absent".
+// skip: the relation does not exist for this outer type.
+func objectRT(outerRT, rel string) (val, class string, skip bool) {
+	type row struct{ disjoint, superset, subset, subset2, reordered string }
+	tab := map[string]row{
+		"code":           {disjoint: "id_token", superset: "code id_token"},
+		"code id_token":  {disjoint: "token", superset: "code id_token token", subset: "code", subset2: "id_token", reordered: "id_token code"},
+		"id_token token": {disjoint: "code", superset: "code id_token token", subset: "id_token", subset2: "token", reordered: "token id_token"},
+	}
+	r, ok := tab[outerRT]
+	if !ok {
+		panic("c14: outer response type " + outerRT)
+	}
+	switch rel {
+	case "same", "equal":
+		return outerRT, "equal", false
+	case "absent":
+		return "", "absent", false
+	case "different", "disjoint":
+		return r.disjoint, "disagrees", false
+	case "superset":
+		return r.superset, "disagrees", false
+	case "subset":
+		return r.subset, "disagrees", r.subset == ""
+	case "subset-2nd":
+		return r.subset2, "disagrees", r.subset2 == ""
+	case "reordered":
+		return r.reordered, "reordered", r.reordered == ""
+	}
+	panic("c14: response type relation " + rel)
+}
+
+// part "reqobj-rt": multi-valued response types. "Agrees with the outer response_type" is a
+// comparison of value SETS as soon as the outer type has several values; the part crosses the
+// outer type {code, code id_token, id_token token} with the relation of the object's member
+// to it {equal, strict subset (either element), strict superset, reordered, disjoint, absent}.
+func runReqObjRT(t *testing.T, c *engine.Check) {
+	sp := engine.Space{
+		engine.D("router", "provider", "legacy"),
+		engine.D("outer", A, B),
+		engine.D("outerRT", "code", "code id_token", "id_token token"),
+		engine.D("ort", "equal", "subset", "subset-2nd", "superset", "reordered", "disjoint", "absent"),
+		engine.D("signer", "outer.k", "outer.rsa", "peer.k-outer-kid", "op-key"),
+		engine.D("members", "all", "none", "redirect_uri", "scope", "state", "nonce", "response_mode", "prompt", "code_challenge"),
+		engine.D("ocid", "outer", "absent"),
+		engine.D("plainScope", "openid email", "email"),
+		engine.D("feature", "on", "off"),
+		engine.D("oiss", "outer", "peer", "absent"),
+		engine.D("oaud", "[I]", "[x]", "absent", "[x,I]"),
+	}
+	c.RunE1(engine.E1{
+		Part:   "reqobj-rt",
+		Space:  sp,
+		Groups: [][]string{{"router", "outer", "outerRT", "ort", "signer", "members", "ocid", "plainScope"}},
+		K:      engine.Pick(c, 0, 2),
+		Skip: func(v engine.Vec) bool {
+			_, _, skip := roSigner(sp.Get(v, "signer"), sp.Get(v, "outer"))
+			_, _, skip2 := objectRT(sp.Get(v, "outerRT"), sp.Get(v, "ort"))
+			return skip || skip2
+		},
+		NewWorker: func(int) func(engine.Vec) engine.Result {
+			return func(v engine.Vec) engine.Result {
+				g := func(n string) string { return sp.Get(v, n) }
+				return reqobjCase(t, newRig(g("feature") == "on"), g)
+			}
+		},
+	})
+}
+
 func runReqObj(t *testing.T, c *engine.Check) {
 	sp := reqobjSpace(c.Thorough())
 	c.RunE1(engine.E1{
@@ -201,11 +274,10 @@ func reqobjCaseW(t *testing.T, r *rig.Rig, g func(string) string) (_ engine.Resu
 	if v, ok, _ := audValue(g("oaud"), I); ok {
 		obj["aud"] = v
 	}
-	switch g("ort") {
-	case "same":
-		obj["response_type"] = "code"
-	case "different":
-		obj["response_type"] = "id_token"
+	outerRT := g("outerRT")
+	objRT, rtClass, _ := objectRT(outerRT, g("ort"))
+	if rtClass != "absent" {
+		obj["response_type"] = objRT
 	}
 	for m := range present {
 		ov := objectValue(m, outer, foreign)
@@ -240,7 +312,7 @@ func reqobjCaseW(t *testing.T, r *rig.Rig, g func(string) string) (_ engine.Resu
 		hard("client_id-claim-disagrees-with-outer")
 	case !audOK:
 		hard("aud-lacks-provider-issuer")
-	case g("ort") == "different":
+	case rtClass == "disagrees":
 		hard("response_type-disagrees-with-outer")
 	}
 	if expect != mustReject {
@@ -251,8 +323,10 @@ func reqobjCaseW(t *testing.T, r *rig.Rig, g func(string) string) (_ engine.Resu
 			soft = "alg-not-in-accepted-list"
 		case ocid == "":
 			soft = "client_id-claim-absent"
-		case g("ort") == "absent":
+		case rtClass == "absent":
 			soft = "response_type-claim-absent"
+		case rtClass == "reordered":
+			soft = "response_type-same-values-other-order"
 		case foreign:
 			soft = "object-redirect_uri-not-registered-for-client"
 		}
@@ -262,7 +336,7 @@ func reqobjCaseW(t *testing.T, r *rig.Rig, g func(string) string) (_ engine.Resu
 	}
 
 	// ---- the request
-	q := url.Values{"client_id": {outer}, "response_type": {"code"}, "request": {tok}}
+	q := url.Values{"client_id": {outer}, "response_type": {outerRT}, "request": {tok}}
 	for _, m := range members {
 		pv := plainValue(m, outer, plainScope)
 		q.Set(m, pv[0])
@@ -306,7 +380,7 @@ func reqobjCaseW(t *testing.T, r *rig.Rig, g func(string) string) (_ engine.Resu
 		return engine.OK(rule, outcome), expect
 	}
 	args := calls[0].Args
-	if len(calls) > 1 || args[0] != outer || args[2] != "code" {
+	if len(calls) > 1 || args[0] != outer || args[2] != outerRT {
 		return engine.Bad(rule, "switched", "C14/authorize-switched-client-or-response-type"+site, "auth request created for another client / response type than the outer ones: "+desc()), expect
 	}
 	usedObj, usedPlain, other := []string{}, []string{}, []string{}
